@@ -11,9 +11,11 @@ import (
 	"sort"
 	"strings"
 
+	"k8s.io/apimachinery/pkg/apis/meta/v1/unstructured"
 	"k8s.io/apimachinery/pkg/runtime/schema"
 	"k8s.io/cli-runtime/pkg/genericiooptions"
 	"sigs.k8s.io/cli-utils/pkg/apply/event"
+	"sigs.k8s.io/cli-utils/pkg/apply/prune"
 	"sigs.k8s.io/cli-utils/pkg/common"
 	pollevent "sigs.k8s.io/cli-utils/pkg/kstatus/polling/event"
 	"sigs.k8s.io/cli-utils/pkg/kstatus/status"
@@ -67,7 +69,23 @@ type mev struct {
 	ak     int
 	id     int
 	st     int
+	herr   bool // actuation events: the Error field is set
 	ids    []int
+}
+
+// objFor builds the object the real event factories take the identifier from.
+func objFor(id int) *unstructured.Unstructured {
+	u := &unstructured.Unstructured{Object: map[string]interface{}{}}
+	m := universe[id]
+	av := "v1"
+	if m.GroupKind.Group != "" {
+		av = m.GroupKind.Group + "/v1"
+	}
+	u.SetAPIVersion(av)
+	u.SetKind(m.GroupKind.Kind)
+	u.SetNamespace(m.Namespace)
+	u.SetName(m.Name)
+	return u
 }
 
 func (e mev) coq() string {
@@ -83,7 +101,7 @@ func (e mev) coq() string {
 	case "group":
 		return emit.App("EGroup", emit.Nat(e.name), actions[e.action], emit.Bool(e.fin))
 	case "act":
-		return emit.App("EAct", akinds[e.ak], emit.Nat(e.id), astatuses[e.st])
+		return emit.App("EAct", akinds[e.ak], emit.Nat(e.id), astatuses[e.st], emit.Bool(e.herr))
 	case "wait":
 		return emit.App("EWait", emit.Nat(e.id), wstatuses[e.st])
 	case "status":
@@ -121,8 +139,21 @@ func (e mev) real() event.Event {
 			GroupName: groupName(e.name), Action: event.ResourceAction(e.action), Status: st}}
 	case "act":
 		var err error
-		if e.st == 3 {
-			err = fmt.Errorf("failed %d", e.id)
+		if e.herr {
+			err = fmt.Errorf("reason %d: %s", e.id, astatStr[e.st])
+		}
+		// prune / delete events in their usual shapes come from the real event
+		// factories of pkg/apply/prune (skipped and failed events carry an error)
+		if e.ak > 0 {
+			f := prune.CreateEventFactory(e.ak == 2, "group-x")
+			switch {
+			case e.st == 1 && !e.herr:
+				return f.CreateSuccessEvent(objFor(e.id))
+			case e.st == 2 && e.herr:
+				return f.CreateSkippedEvent(objFor(e.id), err)
+			case e.st == 3 && e.herr:
+				return f.CreateFailedEvent(universe[e.id], err)
+			}
 		}
 		switch e.ak {
 		case 0:
@@ -255,7 +286,11 @@ func project(raw string) (term string, ok bool) {
 		if !found || st < 0 || !keysOK(m, "group", "kind", "name", "namespace", "status", "error") {
 			return "LError", false
 		}
-		return emit.App("LAct", akinds[find(akindStr, t)], emit.Nat(id), astatuses[st]), true
+		ev, hasErr := m["error"]
+		if _, isStr := ev.(string); hasErr && !isStr {
+			return "LError", false
+		}
+		return emit.App("LAct", akinds[find(akindStr, t)], emit.Nat(id), astatuses[st], emit.Bool(hasErr)), true
 	case "wait":
 		id, found := idOf(m)
 		st := find(wstatStr, fmt.Sprint(m["status"]))
@@ -488,7 +523,7 @@ func (g *gen) wellFormed() []mev {
 		case 0, 1, 2:
 			for _, i := range p.ids {
 				st := actStatus()
-				push(mev{kind: "act", ak: p.action, id: i, st: st})
+				push(mev{kind: "act", ak: p.action, id: i, st: st, herr: st != 1})
 				g.sum.Count("act:" + akindStr[p.action] + "=" + astatStr[st])
 				if withStatus && r.Intn(4) == 0 {
 					push(mev{kind: "status", id: i, st: r.Intn(6)})
@@ -549,7 +584,11 @@ func (g *gen) malformed() []mev {
 			if r.Intn(25) == 0 {
 				st = 0
 			}
-			e = mev{kind: "act", ak: r.Intn(3), id: r.Intn(len(universe)), st: st}
+			e = mev{kind: "act", ak: r.Intn(3), id: r.Intn(len(universe)), st: st, herr: st != 1}
+			if r.Intn(3) == 0 { // odd combinations: Successful with an error, Skipped/Failed without
+				e.herr = !e.herr
+			}
+			g.sum.Count(fmt.Sprintf("malformed-act:%s error-set=%v", astatStr[st], e.herr))
 		case k < 32:
 			e = mev{kind: "wait", id: r.Intn(len(universe)), st: r.Intn(5)}
 		case k < 37:
@@ -572,10 +611,17 @@ func (g *gen) malformed() []mev {
 
 func corpus() [][]mev {
 	return [][]mev{
+		// skipped objects carry the skip reason in Error (as ApplyTask and the prune
+		// event factory produce them): counted as skipped, not failed, no result error
+		{{kind: "group", name: 0, action: 1}, {kind: "act", ak: 1, id: 0, st: 2, herr: true}, {kind: "act", ak: 1, id: 1, st: 1},
+			{kind: "group", name: 0, action: 1, fin: true}},
+		{{kind: "group", name: 0, action: 2}, {kind: "act", ak: 2, id: 3, st: 2, herr: true}, {kind: "group", name: 0, action: 2, fin: true}},
+		{{kind: "group", name: 0, action: 0}, {kind: "act", ak: 0, id: 2, st: 2, herr: true}, {kind: "act", ak: 0, id: 4, st: 1, herr: true},
+			{kind: "act", ak: 0, id: 5, st: 3}, {kind: "group", name: 0, action: 0, fin: true}},
 		{},
 		{{kind: "init"}},
 		// only skipped objects: no error
-		{{kind: "init", groups: [][2]int{{0, 0}}}, {kind: "group", name: 0, action: 0}, {kind: "act", ak: 0, id: 0, st: 2},
+		{{kind: "init", groups: [][2]int{{0, 0}}}, {kind: "group", name: 0, action: 0}, {kind: "act", ak: 0, id: 0, st: 2, herr: true},
 			{kind: "group", name: 0, action: 0, fin: true}},
 		// a single timeout
 		{{kind: "init", groups: [][2]int{{0, 3}}}, {kind: "group", name: 0, action: 3}, {kind: "wait", id: 1, st: 0},
@@ -583,13 +629,13 @@ func corpus() [][]mev {
 		// a single reconcile failure
 		{{kind: "group", name: 0, action: 3}, {kind: "wait", id: 1, st: 4}, {kind: "group", name: 0, action: 3, fin: true}},
 		// failed delete, then error event
-		{{kind: "act", ak: 2, id: 2, st: 3}, {kind: "error", nonnil: true}, {kind: "act", ak: 2, id: 3, st: 1}},
+		{{kind: "act", ak: 2, id: 2, st: 3, herr: true}, {kind: "error", nonnil: true}, {kind: "act", ak: 2, id: 3, st: 1}},
 		// counters are cumulative over two apply groups
 		{{kind: "group", name: 0, action: 0}, {kind: "act", ak: 0, id: 0, st: 1}, {kind: "group", name: 0, action: 0, fin: true},
-			{kind: "group", name: 1, action: 0}, {kind: "act", ak: 0, id: 1, st: 3}, {kind: "group", name: 1, action: 0, fin: true}},
+			{kind: "group", name: 1, action: 0}, {kind: "act", ak: 0, id: 1, st: 3, herr: true}, {kind: "group", name: 1, action: 0, fin: true}},
 		// validation event without identifiers; nil error; pending actuation
 		{{kind: "validation"}, {kind: "act", ak: 0, id: 0, st: 1}},
-		{{kind: "act", ak: 0, id: 0, st: 3}, {kind: "error", nonnil: false}},
+		{{kind: "act", ak: 0, id: 0, st: 3, herr: true}, {kind: "error", nonnil: false}},
 		{{kind: "act", ak: 1, id: 0, st: 1}, {kind: "act", ak: 1, id: 1, st: 0}, {kind: "act", ak: 1, id: 2, st: 1}},
 	}
 }
